@@ -48,6 +48,7 @@ type Ctx struct {
 	specDepth int
 	noMerge   bool
 	mergeOK, mergeFail int
+	frozen   map[*value]bool
 	hashBuf  map[*value][]*Term
 	protoTab []protoRec
 	cover    map[*ssa.Function]bool
